@@ -13,7 +13,7 @@ RULE = ("an sqlite3 in-memory table (0-12 rows, INTEGER and TEXT columns with NU
         "fragments) is queried through SqlMethod.list / all / one / one_or_none with 0-4 generated conditions: "
         "comparisons, = / != with None, list or tuple, IN / NOT IN with list / tuple / set incl. empty and NULL "
         "members, IS [NOT] NULL, [NOT] LIKE, OR groups (also empty, nested, with keyword operands), static "
-        "conditions, keyword filters, interleaved None arguments, _order_by, _as_scalars, GROUP BY methods; 20% "
+        "conditions with lower-case string literals, IN / NOT IN lists of 999-2001 values, keyword filters, interleaved None arguments, _order_by, _as_scalars, GROUP BY methods; 20% "
         "of the cases through a connection whose type name selects %s placeholders. A cursor proxy records "
         "(sql, params). Oracle: harness evaluator of SQL three-valued logic over the Python rows gives the "
         "expected ids in the requested order; placeholders == number of params; params == the multiset of values the "
@@ -123,7 +123,7 @@ def ev(cond, row):
     if k == 'or':
         return OR(ev(c, row) for c in cond[1]) if cond[1] else False
     if k == 'static':
-        return cmp('=', row['n'], row['id'])
+        return STATICS[cond[1]][1](row)
     _, col, op, val = cond
     x = row[col]
     op = op.upper()
@@ -171,23 +171,49 @@ def bound_values(cond):
     return [val]
 
 
+def _in(x, vals):
+    return OR(cmp('=', x, v) for v in vals)
+
+
+# static conditions (text given by the caller, goes into the statement as it is) and their meaning
+STATICS = [
+    ("n = id", lambda row: cmp('=', row['n'], row['id'])),
+    ("s = 'ab'", lambda row: cmp('=', row['s'], 'ab')),
+    ("s != 'a'", lambda row: cmp('!=', row['s'], 'a')),
+    ("s IN ('a', 'abc', 'A')", lambda row: _in(row['s'], ['a', 'abc', 'A'])),
+    ("s > 'a'", lambda row: cmp('>', row['s'], 'a')),
+    ("(n is null or s = 'abc')", lambda row: OR([row['n'] is None, cmp('=', row['s'], 'abc')])),
+]
+
+
 def gen_cond(rng, depth=0):
     r = rng.random()
     if depth < 2 and r < 0.2:
         return ('or', [gen_cond(rng, depth + 1) for _ in range(rng.randint(0, 3))])
     if r < 0.24:
-        return ('static',)
+        return ('static', rng.randrange(len(STATICS)))
     col = rng.choice(['n', 's'])
     dom = INTS if col == 'n' else STRS
     nn = [v for v in dom if v is not None]
     op = rng.choice(['=', '!=', '<', '>', '<=', '>=', 'IN', 'NOT IN', 'in', 'not in', 'IS NULL', 'IS NOT NULL',
                      'is null'] + (['LIKE', 'NOT LIKE', 'like'] if col == 's' else []))
-    if op in ('=', '!='):
+    if op in ('=', '!=') and rng.random() < 0.02:
+        val = list(range(50, 50 + rng.choice([1000, 1001, 1200]))) if col == 'n' else ["w%d" % i for i in range(1001)]
+        val = val + [v for v in dom if v is not None][:1]
+    elif op in ('=', '!='):
         val = rng.choice([rng.choice(dom), rng.choice(dom),
                           [rng.choice(dom) for _ in range(rng.randint(0, 3))],
                           tuple(rng.choice(nn) for _ in range(rng.randint(0, 2)))])
     elif op.upper() in ('IN', 'NOT IN'):
         val = rng.choice([list, tuple, set])(rng.choice(dom) for _ in range(rng.randint(0, 3)))
+        if rng.random() < 0.03:
+            # a very long list (databases often limit the number of items: code may split it)
+            n_items = rng.choice([999, 1000, 1001, 1500, 2001])
+            filler = list(range(100, 100 + n_items)) if col == 'n' else ["v%d" % i for i in range(n_items)]
+            keep = [v for v in val if v is not None][:2]
+            val = rng.choice([list, tuple])(filler[:n_items - len(keep)] + keep)
+            rng_pos = rng.randrange(len(val))
+            val = type(val)(list(val)[rng_pos:] + list(val)[:rng_pos])
     elif op.upper() in ('IS NULL', 'IS NOT NULL'):
         val = None
     elif op.upper() in ('LIKE', 'NOT LIKE'):
@@ -204,7 +230,7 @@ def to_arg(c, rng):
     if c[0] == 'or':
         return SqlMethod._or(*[to_arg(x, rng) for x in c[1]])
     if c[0] == 'static':
-        return "n = id"
+        return STATICS[c[1]][0]
     _, col, op, val = c
     if op == '=' and rng.random() < 0.5:
         return (col, val)
@@ -330,12 +356,15 @@ def run_case(ctx, rng):
         ctx.violation("bound-values-differ-from-condition-values", {"sql": sql, "params": params,
                                                                     "expected": want_params}, case)
     ctx.count("bound_values_checked", len(params))
+    sql_dyn = sql
+    for text, _ in STATICS:
+        sql_dyn = sql_dyn.replace(text, "")   # static conditions are the caller's own text
     for p in want_params:
         if isinstance(p, str):
             if p in HOSTILE:
                 ctx.count("hostile_strings_bound")
-            if len(p) >= 2 and p in sql:
-                ctx.violation("value-inlined-into-sql-text", {"sql": sql, "value": p}, case)
+            if len(p) >= 2 and p in sql_dyn:
+                ctx.violation("value-inlined-into-sql-text", {"sql": sql[:300], "value": p}, case)
     if percent_s and "?" in sql:
         ctx.violation("mixed-placeholder-styles", {"sql": sql}, case)
     if len(conn.log) != 1:
